@@ -339,67 +339,105 @@ func c15R3(c *core.Ctx, li *core.LockInfo) {
 			continue
 		}
 		c.Analysed(core.FuncName(f))
-		base := f.Params[0].Name()
-		// find an If on the flag in f; the closed successor must end in a return with the sentinel
-		found, ok, detail := false, false, "no test of the closed flag found"
-		for _, b := range f.Blocks {
-			iff, isIf := b.Instrs[len(b.Instrs)-1].(*ssa.If)
-			if !isIf {
-				continue
-			}
-			n := core.Normalize(core.Cond{V: iff.Cond, True: true})
-			if !flagRead(p, n.V, base, w.flag, 0) {
-				continue
-			}
-			found = true
-			closedSucc := b.Succs[0]
-			if !n.True {
-				closedSucc = b.Succs[1]
-			}
-			ret, _ := closedSucc.Instrs[len(closedSucc.Instrs)-1].(*ssa.Return)
-			// allow "rundefers; return"
-			if ret == nil {
-				detail = "closed edge does not return immediately"
-				continue
-			}
-			// no call of user code / send on the closed edge
-			clean := true
-			for _, ins := range closedSucc.Instrs {
-				switch x := ins.(type) {
-				case *ssa.Send, *ssa.Go:
-					clean = false
-				case *ssa.Call:
-					if g := core.Callee(&x.Call); g == nil || p.InRepo(g) {
-						clean = false
-					}
-				}
-			}
-			rv := core.RetVals(ret)
-			switch w.sentinel {
-			case "":
-				ok = clean && len(rv) == 0
-			case "0":
-				k, isK := rv[0].(*ssa.Const)
-				ok = clean && isK && k.Value != nil && k.Value.ExactString() == "0"
-			default:
-				last := rv[len(rv)-1]
-				u, isLoad := last.(*ssa.UnOp)
-				if isLoad {
-					g, isG := u.X.(*ssa.Global)
-					ok = clean && isG && g.Name() == w.sentinel
-				}
-			}
-			if ok {
-				detail = "closed edge returns " + w.sentinel
-				if w.sentinel == "" {
-					detail = "closed edge returns without sending"
-				}
-				break
-			}
-			detail = "closed edge does not return the documented result (" + w.sentinel + ")"
-		}
-		_ = found
+		ok, detail := c15closedResult(p, f, w.flag, w.sentinel, 0)
 		c.Check(ok, "R3", key, p.Pos(f.Pos()), detail, detail)
 	}
 	_ = types.Typ
+}
+
+// c15closedResult decides whether f, when the closed flag is set, returns the documented sentinel
+// (as its last result) without calling user code or sending. The flag test may sit in f itself or in a
+// prologue helper of the same receiver whose error result f returns unchanged when it is non-nil.
+func c15closedResult(p *core.Prog, f *ssa.Function, flag, sentinel string, depth int) (bool, string) {
+	base := f.Params[0].Name()
+	ok, detail := false, "no test of the closed flag found"
+	for _, b := range f.Blocks {
+		iff, isIf := b.Instrs[len(b.Instrs)-1].(*ssa.If)
+		if !isIf {
+			continue
+		}
+		n := core.Normalize(core.Cond{V: iff.Cond, True: true})
+		var viaHelper ssa.Value
+		if !flagRead(p, n.V, base, flag, 0) {
+			// `if err := q.prologue(); err != nil { return ..., err }`
+			cmp, isCmp := core.AsCmp(n)
+			if !isCmp || depth > 1 || sentinel == "" || sentinel == "0" || !core.IsNilConst(cmp.Y) || (cmp.Op != token.NEQ && cmp.Op != token.EQL) {
+				continue
+			}
+			x := core.Resolve(cmp.X)
+			var call *ssa.Call
+			switch v := x.(type) {
+			case *ssa.Call:
+				call = v
+			case *ssa.Extract:
+				call, _ = v.Tuple.(*ssa.Call)
+				if call != nil && v.Index != call.Call.Signature().Results().Len()-1 {
+					call = nil
+				}
+			}
+			if call == nil || len(call.Call.Args) == 0 || core.Path(call.Call.Args[0]) != base {
+				continue
+			}
+			h := core.Callee(&call.Call)
+			if h == nil || !p.InRepo(h) || h == f || len(h.Params) == 0 {
+				continue
+			}
+			if hOK, _ := c15closedResult(p, h, flag, sentinel, depth+1); !hOK {
+				continue
+			}
+			viaHelper = x
+			n.True = cmp.Op == token.NEQ
+		}
+		closedSucc := b.Succs[0]
+		if !n.True {
+			closedSucc = b.Succs[1]
+		}
+		ret, _ := closedSucc.Instrs[len(closedSucc.Instrs)-1].(*ssa.Return)
+		// allow "rundefers; return"
+		if ret == nil {
+			detail = "closed edge does not return immediately"
+			continue
+		}
+		// no call of user code / send on the closed edge
+		clean := true
+		for _, ins := range closedSucc.Instrs {
+			switch x := ins.(type) {
+			case *ssa.Send, *ssa.Go:
+				clean = false
+			case *ssa.Call:
+				if g := core.Callee(&x.Call); g == nil || p.InRepo(g) {
+					clean = false
+				}
+			}
+		}
+		rv := core.RetVals(ret)
+		switch {
+		case viaHelper != nil:
+			ok = clean && len(rv) > 0 && core.Resolve(rv[len(rv)-1]) == viaHelper
+		case sentinel == "":
+			ok = clean && len(rv) == 0
+		case sentinel == "0":
+			k, isK := rv[0].(*ssa.Const)
+			ok = clean && isK && k.Value != nil && k.Value.ExactString() == "0"
+		default:
+			last := rv[len(rv)-1]
+			u, isLoad := last.(*ssa.UnOp)
+			if isLoad {
+				g, isG := u.X.(*ssa.Global)
+				ok = clean && isG && g.Name() == sentinel
+			}
+		}
+		if ok {
+			detail = "closed edge returns " + sentinel
+			if sentinel == "" {
+				detail = "closed edge returns without sending"
+			}
+			if viaHelper != nil {
+				detail += " (from its prologue helper)"
+			}
+			return true, detail
+		}
+		detail = "closed edge does not return the documented result (" + sentinel + ")"
+	}
+	return false, detail
 }
